@@ -508,15 +508,25 @@ impl<'a, T: std::fmt::Debug> WaitingState<'a, T> {
         }
         self.prev_queue_len = queued.len() as u8;
         let mut skip_timeout = false;
+        // Only events from while this key was down can trigger an early decision. Events queued
+        // after the key's own release are seen here when the key is resolved late (an earlier
+        // tap-hold was still pending, or several events arrived within one tick); they must not
+        // turn a completed tap into a hold.
+        let while_down = || {
+            let own_release = queued
+                .iter()
+                .position(|s| self.is_corresponding_release(&s.event));
+            queued.iter().take(own_release.unwrap_or(queued.len()))
+        };
         match cfg {
             HoldTapConfig::Default => (),
             HoldTapConfig::HoldOnOtherKeyPress => {
-                if queued.iter().any(|s| s.event.is_press()) {
+                if while_down().any(|s| s.event.is_press()) {
                     return Some(WaitingAction::Hold);
                 }
             }
             HoldTapConfig::PermissiveHold => {
-                let mut queued = queued.iter();
+                let mut queued = while_down();
                 while let Some(q) = queued.next() {
                     if q.event.is_press() {
                         let (i, j) = q.event.coord();
@@ -528,7 +538,7 @@ impl<'a, T: std::fmt::Debug> WaitingState<'a, T> {
                 }
             }
             HoldTapConfig::Custom(func) => {
-                let (waiting_action, local_skip) = (func)(QueuedIter(queued.iter()));
+                let (waiting_action, local_skip) = (func)(QueuedIter(while_down()));
                 if waiting_action.is_some() {
                     return waiting_action;
                 }
@@ -1002,7 +1012,7 @@ impl OneShotState {
 ///
 /// Events can be retrieved by iterating over this struct and calling [Queued::event].
 #[derive(Clone)]
-pub struct QueuedIter<'a>(arraydeque::Iter<'a, Queued>);
+pub struct QueuedIter<'a>(core::iter::Take<arraydeque::Iter<'a, Queued>>);
 
 impl<'a> Iterator for QueuedIter<'a> {
     type Item = &'a Queued;
@@ -2098,7 +2108,7 @@ impl<'a> QueuedIter<'a> {
     /// Build a `QueuedIter` over an externally constructed queue, so that a
     /// `HoldTapConfig::Custom` closure can be probed from outside this crate.
     pub fn verif_new(it: arraydeque::Iter<'a, Queued>) -> Self {
-        QueuedIter(it)
+        QueuedIter(it.take(usize::MAX))
     }
 }
 
